@@ -1030,4 +1030,11 @@ theorem fair_pick_transmits_lemma (mx : Nat) (hmx : 0 < mx) (ds : List Desc) (hn
   rw [hc2id, h4, h2] at hinv2
   exact prefix_of_append _ _ _ _ hinv2 h1
 
+/-! ### peer level -/
+
+/-- what a switch's reactor sees: every arriving `(peer, bytes)` decoded by a function of THOSE
+bytes (a fresh message object per delivery) -/
+def hubDeliver {α : Type} (decode : Bytes → α) (arrivals : List (Nat × Bytes)) : List (Nat × α) :=
+  arrivals.map fun a => (a.1, decode a.2)
+
 end Tmv.MConn
